@@ -25,3 +25,15 @@ for _p in sorted(glob.glob(os.path.join(HERE, "targets.d", "C*.py"))):
     _spec.loader.exec_module(_m)
     TARGETS[_pid] = _m.TARGET
     META[_pid] = _m.META
+
+# Additional executors contributed by separate files (so that parallel harness writers do not edit the same target file):
+# engine/targets.d/add_<name>.py defines ADD = { "C01": [exec dict, ...], ... } and optionally RULE = { "C01": "text appended to the rule" }.
+for _p in sorted(glob.glob(os.path.join(HERE, "targets.d", "add_*.py"))):
+    _spec = importlib.util.spec_from_file_location("targets_d_" + os.path.basename(_p)[:-3], _p)
+    _m = importlib.util.module_from_spec(_spec)
+    _m.lib, _m.LIBUPIPE, _m.MEMFIX, _m.REPO = lib, LIBUPIPE, MEMFIX, REPO
+    _spec.loader.exec_module(_m)
+    for _pid, _execs in getattr(_m, "ADD", {}).items():
+        TARGETS[_pid]["execs"] = list(TARGETS[_pid]["execs"]) + list(_execs)
+    for _pid, _txt in getattr(_m, "RULE", {}).items():
+        TARGETS[_pid]["rule"] = TARGETS[_pid]["rule"] + " || " + _txt
